@@ -290,7 +290,17 @@ def _variants():
         V("memo-callee-impure", insert_stmt(PE, "Perm.left_floor_and_ceiling", "smallest, biggest = (-1, -1)", "random.random()", "after"), "fire", "C01-M2"),
         V("memo-table-mutated", insert_stmt(PE, "Perm.occurrences_in", "occurrence_indices = [0] * n", "pattern_details.reverse()", "before"), "fire", "C01-M3"),
         V("memo-table-leaked", insert_stmt(PE, "Perm.get_perm", "return self", "return self._pattern_details()", "before"), "fire", "C01-M3"),
+        V("scratch-buffer-on-object", [replace_stmt(PE, "Perm.occurrences_in", "occurrence_indices = [0] * n", "if getattr(self, '_scratch', None) is None:\n    self._scratch = [0] * n\noccurrence_indices = self._scratch")], "fire", "C01-M4"),
+        V("search-nonstrict-recursion", replace_expr(PE, "Perm.occurrences_in", "occurrences(i + 1, k + 1)", "occurrences(i, k + 1)"), "fire", "C01-O1"),
+        V("search-skips-position", replace_stmt(PE, "Perm.occurrences_in", "i, elements_remaining = (i + 1, elements_remaining - 1)", "i, elements_remaining = (i + 2, elements_remaining - 2)"), "fire", "C01-O1"),
+        V("search-starts-at-1", replace_expr(PE, "Perm.occurrences_in", "occurrences(0, 0)", "occurrences(1, 0)"), "fire", "C01-O1"),
+        V("empty-pattern-twice", insert_stmt(PE, "Perm.occurrences_in", "occurrence_indices = [0] * n", "if n == 0:\n    yield ()", "after"), "fire-or-undecided", "C01-O1"),
+        V("empty-pattern-never", replace_stmt(PE, "Perm.occurrences_in", "if n == 0: ...", "if n == 0:\n    return"), "fire", "C01-O1"),
+        V("report-one-early", replace_expr(PE, "Perm.occurrences_in", "elements_needed == 1", "elements_needed == 2"), "fire", "C01-O1"),
+        V("report-before-record", [replace_stmt(PE, "Perm.occurrences_in", "occurrence_indices[k] = i", ""),
+                                   insert_stmt(PE, "Perm.occurrences_in", "i, elements_remaining = (i + 1, elements_remaining - 1)", "occurrence_indices[k] = i", "before")], "fire", "C01-O1"),
         # silent
+        V("search-augassign-step", replace_stmt(PE, "Perm.occurrences_in", "i, elements_remaining = (i + 1, elements_remaining - 1)", "elements_remaining -= 1\ni += 1"), "silent"),
         V("reformat-perm", reformat_only(PE), "silent"),
         V("contains-loop-form", replace_stmt(PE, "Perm.contains", "return all((self._contains(patt) for patt in patts))",
                                              "for patt in patts:\n    if not self._contains(patt):\n        return False\nreturn True"), "silent"),
@@ -300,3 +310,184 @@ def _variants():
         V("rename-memo-local", rename_local(PE, "Perm.occurrences_in", "pattern_details", "table"), "silent"),
         V("count-len-list", replace_expr(PA, "Patt.count_occurrences_in", "sum((1 for _ in self.occurrences_in(patt)))", "len(list(self.occurrences_in(patt)))"), "silent"),
     ]
+
+
+# ---------------------------------------------------------------------------- O1: shape of the enumeration
+
+
+def rule_o1(ctx: Ctx) -> None:
+    """Index tuples are strictly increasing, enumerated in lexicographic order and without repetition –
+    by the *shape* of the backtracking (which elements are accepted is value-level and not decided):
+    position k+1 is searched from i+1 on, i only ever advances by one, the index is recorded before the
+    tuple is reported or extended, the search starts at (0, 0), the empty pattern is reported once."""
+    occ = ctx.repo.need_method("Perm", "occurrences_in")
+    inner = [f for f in occ.nested.values()]
+    if len(inner) != 1:
+        raise AnalysisError(f"{occ.where}: expected one nested search function")
+    rec = inner[0]
+    if len(rec.params) != 2:
+        raise AnalysisError(f"{rec.where}: expected parameters (i, k)")
+    i, k = rec.params
+    from ..core import flow_env, inlined_text, subst_names
+
+    # --- empty pattern / too long pattern prologue
+    env = flow_env(occ)
+    n_name = next((nm for nm, v in env.items() if unparse(v) == f"len({occ.params[0]})"), None)
+    if n_name is None:
+        raise AnalysisError(f"{occ.where}: length of the pattern is not bound to a local")
+    empties = [st for st in occ.body if isinstance(st, ast.If) and unparse(st.test) in (f"{n_name} == 0", f"not {occ.params[0]}", f"len({occ.params[0]}) == 0")]
+    if len(empties) == 1 and [unparse(s) for s in empties[0].body] == ["yield ()", "return"]:
+        ctx.ok("C01-O1", occ.where, "the empty pattern occurs exactly once: `yield ()` then return", empties[0], occ)
+    else:
+        ctx.violation("C01-O1", occ, empties[0] if empties else occ.node, "the empty pattern is not reported exactly once (expected `if n == 0: yield (); return`)")
+    # --- top-level start
+    starts = [st for st in occ.body if isinstance(st, ast.Expr) and isinstance(st.value, ast.YieldFrom) and isinstance(st.value.value, ast.Call) and call_name(st.value.value) == (rec.name,)]
+    if len(starts) == 1 and [unparse(a) for a in starts[0].value.value.args] == ["0", "0"]:
+        ctx.ok("C01-O1", occ.where, f"search starts at {rec.name}(0, 0)", starts[0], occ)
+    else:
+        ctx.violation("C01-O1", occ, starts[0] if starts else occ.node, f"the search does not start with the first pattern entry at the first position ({rec.name}(0, 0))")
+    # --- the loop
+    loops = [st for st in rec.body if isinstance(st, ast.While)]
+    if len(loops) != 1 or not is_const(loops[0].test, True):
+        raise AnalysisError(f"{rec.where}: search loop shape")
+    lp = loops[0]
+    # every store to i inside the function
+    stores = []
+    for node in walk_no_nested(rec.node):
+        if isinstance(node, (ast.Assign, ast.AugAssign)):
+            tgts = node.targets if isinstance(node, ast.Assign) else [node.target]
+            for t in tgts:
+                elts = t.elts if isinstance(t, ast.Tuple) else [t]
+                vals = node.value.elts if isinstance(t, ast.Tuple) and isinstance(node.value, ast.Tuple) else [node.value]
+                for e, v in zip(elts, vals):
+                    if isinstance(e, ast.Name) and e.id == i:
+                        stores.append((node, v, isinstance(node, ast.AugAssign)))
+    good_step = len(stores) == 1 and ((not stores[0][2] and unparse(stores[0][1]) in (f"{i} + 1", f"1 + {i}")) or (stores[0][2] and isinstance(stores[0][0].op, ast.Add) and unparse(stores[0][1]) == "1"))
+    if good_step and stores[0][0] is lp.body[-1]:
+        ctx.ok("C01-O1", rec.where, f"the candidate position `{i}` advances by exactly one at the end of every round and is changed nowhere else", stores[0][0], rec)
+    else:
+        ctx.violation("C01-O1", rec, stores[0][0] if stores else lp, f"the candidate position `{i}` is not advanced by exactly +1 once per round (at the end of the loop body): positions could be skipped, repeated or revisited")
+    # recursion and report
+    recs = [n for n in ast.walk(lp) if isinstance(n, ast.Call) and call_name(n) == (rec.name,)]
+    if len(recs) == 1 and [unparse(a) for a in recs[0].args] == [f"{i} + 1", f"{k} + 1"]:
+        ctx.ok("C01-O1", rec.where, f"the next pattern entry is searched from position {i} + 1 on: index tuples are strictly increasing and enumerated in lexicographic order", recs[0], rec)
+    else:
+        got = [unparse(a) for a in recs[0].args] if recs else None
+        ctx.violation("C01-O1", rec, recs[0] if recs else lp, f"the recursive search continues with {got}; it must continue with ({i} + 1, {k} + 1) so that indices strictly increase and every pattern entry is matched once")
+    # record-before-report
+    idx_store = [st for st in ast.walk(lp) if isinstance(st, ast.Assign) and isinstance(st.targets[0], ast.Subscript) and unparse(st.targets[0].slice) == k and unparse(st.value) == i]
+    reports = [n for n in ast.walk(lp) if isinstance(n, ast.Yield)]
+    if len(idx_store) == 1 and len(reports) == 1 and isinstance(reports[0].value, ast.Call) and call_name(reports[0].value) == ("tuple",) and unparse(reports[0].value.args[0]) == unparse(idx_store[0].targets[0].value):
+        arr = unparse(idx_store[0].targets[0].value)
+        # the store precedes the yield / recursion in the same block
+        blk = None
+        for node in ast.walk(lp):
+            body = getattr(node, "body", None)
+            if isinstance(body, list) and idx_store[0] in body:
+                blk = body
+        after = blk[blk.index(idx_store[0]) + 1:] if blk else []
+        if any(any(sub is reports[0] for sub in ast.walk(s)) for s in after) and any(any(sub is recs[0] for sub in ast.walk(s)) for s in after) if recs else False:
+            ctx.ok("C01-O1", rec.where, f"`{arr}[{k}] = {i}` is recorded before the tuple is reported (a fresh tuple copy) or extended", idx_store[0], rec)
+        else:
+            ctx.violation("C01-O1", rec, idx_store[0], "the accepted index is recorded after the tuple is reported/extended")
+        # report when exactly one entry was still needed
+        guard = None
+        for node in ast.walk(lp):
+            if isinstance(node, ast.If) and any(sub is reports[0] for sub in ast.walk(ast.Module(body=node.body, type_ignores=[]))):
+                guard = node
+        if guard is not None:
+            env_r = flow_env(rec)
+            g = unparse(subst_names(guard.test, env_r))
+            if g in (f"{n_name} - {k} == 1", f"{k} == {n_name} - 1", f"{k} + 1 == {n_name}"):
+                ctx.ok("C01-O1", rec.where, f"a tuple is reported exactly when its last entry has just been placed ({g})", guard, rec)
+            else:
+                ctx.violation("C01-O1", rec, guard, f"a tuple is reported when `{g}`; it must be reported exactly when the last of the {n_name} entries has been placed")
+    else:
+        ctx.violation("C01-O1", rec, lp, "the accepted index is not recorded as indices[k] = i and reported as tuple(indices)")
+    # too-long pattern
+    longs = [st for st in occ.body if isinstance(st, ast.If) and len(st.body) == 1 and isinstance(st.body[0], ast.Return)]
+    _ = longs
+
+
+_OLD_RUN = run
+
+
+def run(ctx: Ctx) -> None:  # noqa: F811
+    _OLD_RUN(ctx)
+    ctx.run(rule_o1, ctx)
+
+
+FLOORS["C01-O1"] = 6
+
+
+# ---------------------------------------------------------------------------- M4: scratch state is per search
+
+
+def _fresh_value(v: ast.AST) -> bool:
+    if isinstance(v, (ast.List, ast.Dict, ast.Set, ast.ListComp, ast.DictComp, ast.SetComp)):
+        return True
+    if isinstance(v, ast.BinOp) and isinstance(v.op, ast.Mult) and (isinstance(v.left, ast.List) or isinstance(v.right, ast.List)):
+        return True
+    if isinstance(v, ast.Call) and call_name(v) in (("list",), ("dict",), ("set",), ("bytearray",), ("collections", "deque"), ("deque",)):
+        return True
+    return False
+
+
+def rule_m4(ctx: Ctx) -> None:
+    """Everything a search mutates is created by that search: no scratch buffer lives on the pattern
+    object (or anywhere else that outlives the call), so suspended/interleaved listings with the same
+    pattern object cannot disturb each other."""
+    occ = ctx.repo.need_method("Perm", "occurrences_in")
+    funcs = [occ] + list(occ.nested.values())
+    bindings: Dict[str, List[ast.AST]] = {}
+    for f in funcs:
+        for node in walk_no_nested(f.node):
+            if isinstance(node, (ast.Assign, ast.AnnAssign)) and node.value is not None:
+                tgts = node.targets if isinstance(node, ast.Assign) else [node.target]
+                for t in tgts:
+                    if isinstance(t, ast.Name):
+                        bindings.setdefault(t.id, []).append(node.value)
+                    elif isinstance(t, ast.Tuple) and isinstance(node.value, ast.Tuple) and len(t.elts) == len(node.value.elts):
+                        for e, v in zip(t.elts, node.value.elts):
+                            if isinstance(e, ast.Name):
+                                bindings.setdefault(e.id, []).append(v)
+    mutated: List[Tuple[FuncInfo, ast.AST, str]] = []
+    for f in funcs:
+        for node in walk_no_nested(f.node):
+            if isinstance(node, (ast.Assign, ast.AugAssign, ast.AnnAssign, ast.Delete)):
+                tgts = node.targets if isinstance(node, (ast.Assign, ast.Delete)) else [node.target]
+                for t in tgts:
+                    for leaf in (t.elts if isinstance(t, ast.Tuple) else [t]):
+                        if isinstance(leaf, ast.Attribute):
+                            ctx.violation("C01-M4", f, node, f"the search stores `{unparse(leaf)}`: state that outlives the call is shared by every (possibly still running) search with the same object")
+                        if isinstance(leaf, ast.Subscript):
+                            base = leaf.value
+                            while isinstance(base, ast.Subscript):
+                                base = base.value
+                            mutated.append((f, node, unparse(base)))
+            if isinstance(node, ast.Call) and isinstance(node.func, ast.Attribute) and node.func.attr in ("append", "extend", "insert", "pop", "remove", "clear", "sort", "reverse", "update", "add", "discard", "setdefault", "popitem", "appendleft", "popleft", "rotate"):
+                mutated.append((f, node, unparse(node.func.value)))
+    seen = set()
+    for f, node, base in mutated:
+        if base in seen:
+            continue
+        seen.add(base)
+        vals = bindings.get(base)
+        if vals and all(_fresh_value(v) for v in vals):
+            ctx.ok("C01-M4", f.where, f"`{base}` (mutated during the search) is created afresh by every call: {unparse(vals[0])[:40]}", node, f)
+        else:
+            origin = unparse(vals[0])[:60] if vals else "a parameter / outer object"
+            ctx.violation("C01-M4", f, node, f"the search mutates `{base}`, which is not created by this call (it comes from `{origin}`): two live listings with the same pattern object overwrite each other's state")
+    if not mutated:
+        ctx.ok("C01-M4", occ.where, "the search mutates nothing")
+
+
+_OLD_RUN2 = run
+
+
+def run(ctx: Ctx) -> None:  # noqa: F811
+    _OLD_RUN2(ctx)
+    ctx.run(rule_m4, ctx)
+
+
+FLOORS["C01-M4"] = 1
